@@ -357,11 +357,24 @@ func (c *xsyncMap) DeleteExpired() {
 	now := time.Now().UnixNano()
 	c.items.Range(func(k string, v interface{}) bool {
 		i := v.(item)
-		if i.expiredWithNow(now) {
-			c.items.Delete(k)
-			if ec != nil {
-				evictedItems = append(evictedItems, kv{k, i.v})
+		if !i.expiredWithNow(now) {
+			return true
+		}
+		// double check under the bucket lock: delete only the expired value
+		removed := false
+		c.items.Compute(k, func(value interface{}, loaded bool) (interface{}, bool) {
+			if loaded {
+				i = value.(item)
+				if !i.expiredWithNow(now) {
+					// k has a new value
+					return value, false
+				}
+				removed = true
 			}
+			return nil, true
+		})
+		if removed && ec != nil {
+			evictedItems = append(evictedItems, kv{k, i.v})
 		}
 		return true
 	})
